@@ -13,6 +13,7 @@ RULE = (
     "after 0-2 generated remove/insert_absence_time_list edits of the result (indices inside the run, at its last "
     "step and just beyond its end); one run in three is paused at a generated step and continued with both "
     "initialize flags off before it is checked. "
+    'One run in three uses simulate(unit_time=2 or 3): absence lists are then in time units, every level is still charged once per step. '
     "Non-trivial = at least two resources with different non-zero rates of which one is logged "
     "WORKING at a step where another one is idle or absent; distinct by canonical spec hash."
 )
@@ -42,6 +43,9 @@ def strategy(tier):
         # ... and when the run was paused at a step and continued (both initialize flags off)
         if draw(st.integers(0, 2)) == 0:
             spec["pause"] = draw(st.integers(0, 12))
+        # one step may cover several time units (simulate(unit_time=u)): absence lists are then in time units, the
+        # logs still have one entry per step, and cost_per_time is charged once per step at every level
+        spec["unit_time"] = draw(st.sampled_from([1, 1, 1, 2, 3]))
         return spec
 
     return case()
@@ -63,12 +67,19 @@ def check(spec):
     res = Result()
     h = S.warm_build(spec)
     p = h.project
+    u = int(spec.get("unit_time", 1))
+    extra = {"unit_time": u} if u != 1 else {}
     if spec.get("pause") is not None:
-        S.simulate(p, dict(spec["opts"], max_time=spec["pause"]))
-        S.simulate(p, spec["opts"], initialize_state_info=False, initialize_log_info=False)
+        S.simulate(p, dict(spec["opts"], max_time=spec["pause"]), **extra)
+        S.simulate(p, spec["opts"], initialize_state_info=False, initialize_log_info=False, **extra)
         res.cls("paused_and_continued")
     else:
-        S.simulate(p, spec["opts"])
+        S.simulate(p, spec["opts"], **extra)
+    if u != 1:
+        res.cls("unit_time_%d" % u)
+        # step i covers the time i*u: it is a project-wide absence step when that time is on the list
+        check_costs(spec, h, res, absn=set(a // u for a in spec["opts"].get("abs", []) if a % u == 0))
+        return res  # (the edit operations index the logs by time and are only meaningful for unit_time=1)
     res.cls("warm_" + str((spec.get("warm") or {}).get("mode")), bool(spec.get("warm")))
     check_costs(spec, h, res)
     nt = res.nontrivial
